@@ -24,6 +24,7 @@ from ..astutil import (
 from ..cfg import CFG
 from ..loader import FuncInfo, Project, Undecided, dotted
 from ..report import Check
+from ..pattern import find as pfind, first as pfirst, has as phas, match as pmatch, name_of, tests as ptests
 
 def cfg_of(fn: FuncInfo, flavour: str = "default", **kw) -> CFG:  # type: ignore[no-untyped-def]
     cache = fn.module.__dict__.setdefault("_cfgs", {})
@@ -121,6 +122,14 @@ def local_value(fn: FuncInfo, name: str) -> list[ast.expr]:
     return [v for _, v in assignments_to(fn.node, name) if v is not None]
 
 
+def is_var(node: ast.AST | None, name: str | None) -> bool:
+    return isinstance(node, ast.Name) and name is not None and node.id == name
+
+
+def same_var(a: ast.AST | None, b: ast.AST | None) -> bool:
+    return isinstance(a, ast.Name) and isinstance(b, ast.Name) and a.id == b.id
+
+
 def qual(fn: FuncInfo) -> str:
     return fn.qualname
 
@@ -130,4 +139,5 @@ __all__ = [
     "is_within", "kwarg", "last_attr", "names_in", "norm", "params_of", "stmt_of", "strip_not", "unparse",
     "walk_body", "walk_local", "cfg_of", "find_calls_named", "body_calls", "check_identity_forwarding",
     "loop_var_uses", "guard_tests", "dominated_by_guard", "simple_return_expr", "local_value", "qual",
+    "pfind", "pfirst", "phas", "pmatch", "ptests", "name_of", "same_var", "is_var",
 ]
